@@ -48,7 +48,7 @@ LineTerm     == {"LF", "CR"}
 Ignored1     == WhiteSpace \cup LineTerm \cup {",", "BOM"}
 Punct1       == {"!", "$", "(", ")", ":", "=", "@", "[", "]", "{", "|", "}", "&"}
 \* control characters other than TAB, LF, CR are not SourceCharacters
-NonSource    == {"BEL", "NUL", "BKSP", "FF", "VT"}
+NonSource    == {"BEL", "NUL", "BKSP", "FF", "VT", "SI"}
 \* everything else ("?", "+", "/", "BS", "DEL", "U2", "U3", "U4", "U4NP", continuation
 \* units ...) is a SourceCharacter that starts no token
 
